@@ -48,7 +48,7 @@ def queries(ctx, extra):
                         bound="two consecutive lines of <= %d bytes each" % n))
     for n, tiers in ((3, ("quick", "thorough")), (5, ("thorough",))):
         qs.append(Query(name="linxsep_%d" % n, harness="c07_lin.c", entry="h_linxsep", defs=["-DNTOK=%d" % n], stubs=["stubs.c", "stubs_print.c"],
-                        unwind=n + 3, timeout=600, mem_gb=8, tiers=tiers, group="linearizer", flags=["--max-field-sensitivity-array-size", "200"],
+                        unwind=n + 3, timeout=1800, mem_gb=8, tiers=tiers, group="linearizer", flags=["--max-field-sensitivity-array-size", "200"],
                         bound="token lists of 0..%d tokens, every token tag" % n))
     # conditional inclusion: every shape of 0..N lines (4^n shapes of length n), directive forms symbolic within the shape
     for n in range(0, 5):      # n = 5 (1024 shapes): 60 of them gave no verdict in 300 s under full load; not part of the claim
